@@ -187,6 +187,7 @@ static void child_run(void *ud) {
   cov = (ccov_t *)SIM_SHARED_EXT;
   REF = lib_by_name("ref");
   if (!REF) { sim_shared->aux[1] = 1; return; }
+  heap_config(fnv1a(a->text, strlen(a->text), FNV0), FILL_A5, RECYCLE_OFF, 0); /* uninitialised heap memory has a fixed, non-zero content: a configuration that reads it differs reproducibly */
   char *copy = strdup(a->text);
   char fam[32] = "";
   int full = 1;
